@@ -9,3 +9,8 @@ Print Assumptions tie_bm_step.
 Check tie_bm_run : forall bs es s,
   gen_bm_run bs es s = (fst (brun bs s es), sealed_out (snd (brun bs s es))).
 Print Assumptions tie_bm_run.
+From HS Require Import BatchMaker.
+Check c11_gen_exactly_once_in_order : forall bs es s, BInv bs s ->
+  let '(s', o) := gen_bm_run bs es s in
+  BInv bs s' /\ concat (broadcasts o) ++ cur s' = cur s ++ txs_of es /\ emitted o = broadcasts o /\ (forall b, In b (broadcasts o) -> b <> []).
+Print Assumptions c11_gen_exactly_once_in_order.
